@@ -1,12 +1,32 @@
 /-
 C18 — region extraction and capture analysis are exact: property theorems about the model
-`IrVerif.Extract` (Model/Extract.lean).  Helper development: Lemmas/Extract.lean.
+`IrVerif.Extract` (Model/Extract.lean).  Helper development: Lemmas/Extract*.lean, Lemmas/Implicit.lean.
+
+Round 3 additions (nothing older was changed or removed):
+* by-name boundary values: `C18_by_name_resolves` (documented precedence = first pair in the order initializer
+  dict, graph inputs, node inputs then outputs; unique names resolve to THE value), `C18_by_name_missing`
+  (which error, decided by the first failing argument);
+* every kind of source (Graph, Function, GraphView with any node list: subset, other order, repeats — a dict
+  comprehension indexes a repeated node by its LAST position): `C18_order_view`, `C18_nodes_exact_source`,
+  `C18_order_source`, `C18_inits_source` (stated on the whole `extract` call);
+* hypotheses of the evaluation theorems: `C18_eval_strong` / `C18_extract_eval_strong` drop "no initializer is
+  produced" and "distinct initializer names"; `C18_source_of_C01` derives the pointer hypotheses from the C01
+  kernel invariant for graphs without subgraph attributes; `C18_eval_needs_sorted`, `C18_eval_needs_closed`,
+  `C18_extract_eval_needs_scope` show the remaining ones necessary (counterexamples, replayed on the real code);
+* capture analysis: `C18_captures_exact` (entry = free variables, any depth), `C18_captures_any_root` (Graph or
+  Function object), `C18_attrs_bodies` (GRAPH / GRAPHS / reference attributes read branch by branch).
+Still hypotheses without a necessity theorem: consistent `.graph` back pointers on nested graphs, scoping of
+uses by owner (`scopedGB`).
 -/
 import IrVerif.Lemmas.Extract
 import IrVerif.Lemmas.Implicit
 import IrVerif.Lemmas.ExtractEval
 import IrVerif.Lemmas.ExtractClone
 import IrVerif.Lemmas.ExtractHyp
+import IrVerif.Lemmas.ExtractView
+import IrVerif.Lemmas.ExtractNames
+import IrVerif.Lemmas.ExtractAttrs
+import IrVerif.Lemmas.ExtractKernel
 import IrVerif.Props.C13
 set_option linter.unusedSimpArgs false
 namespace IrVerif.Extract
@@ -68,7 +88,7 @@ theorem findSubgraph_ok {W : World} {fn : Bool} {g I O : List VId} {p : GId} {ns
     {ws : List VId} (h : findSubgraph W fn g I O p = .ok (ns, ws)) :
     (unspecified W I (walkFinal W fn I O p).nodesV).isEmpty = true ∧
     (walkFinal W fn I O p).nodesV.all (fun n => g.contains n) = true ∧
-    ns = sortByKey (fun n => g.idxOf n) (walkFinal W fn I O p).nodesV ∧
+    ns = sortByKey (fun n => lastIdx g n) (walkFinal W fn I O p).nodesV ∧
     ws = (walkFinal W fn I O p).inited := by
   unfold findSubgraph at h
   simp only [] at h
@@ -112,7 +132,8 @@ theorem C18_order {W : World} {fn : Bool} {g I O : List VId} {p : GId} {ns : Lis
     have := List.all_eq_true.mp h2 x hx
     simpa using this
   have hnd : (walkFinal W fn I O p).nodesV.Nodup := walk_nodup _ (by simp [walkInit])
-  have e := sortByKey_idxOf_eq_filter hg hnd hsub
+  have e := sortByKey_lastIdx_eq_filter (g := g) hnd hsub
+  rw [dedupLast_of_nodup hg] at e
   have hmem : ∀ n, decide (n ∈ ns) = decide (n ∈ (walkFinal W fn I O p).nodesV) := by
     intro n
     rw [h3, decide_eq_decide, mem_sortByKey]
@@ -518,6 +539,339 @@ theorem C18_extract_unbounded_iff (W : World) (T : Target) (ins outs : List Arg)
     rw [← hout]
     rw [(C18_raises_iff W _ T.nodes _ _ parent).1.mpr hunc]
 
+/-! ## by-name resolution (round 3) -/
+
+/-- a value of the source as `create_value_mapping(graph, include_subgraphs=False)` sees it: a graph input, or
+    an input or output of a node of the graph-like object (values defined only inside nested graphs are not
+    seen; a value of an enclosing graph that a node of the source reads directly is) -/
+def SourceVal (W : World) (T : Target) (v : VId) : Prop :=
+  v ∈ T.inputs ∨ ∃ n, n ∈ T.nodes ∧ (some v ∈ (W.nodeD n).inputs ∨ v ∈ (W.nodeD n).outputs)
+
+/-- `s` names `v` in the source: `s` is the key of `v` in the initializer dict, or `v` is a source value whose
+    name is the non-empty string `s` -/
+def NamedBy (W : World) (T : Target) (s : String) (v : VId) : Prop :=
+  (s, v) ∈ T.inits ∨ (SourceVal W T v ∧ (W.val v).name = s ∧ s ≠ "")
+
+theorem mem_nameCandidates {W : World} {T : Target} {s : String} {v : VId} :
+    (s, v) ∈ nameCandidates W T ↔ NamedBy W T s v := by
+  unfold nameCandidates NamedBy SourceVal
+  rw [List.mem_append, mem_named, List.mem_append, List.mem_flatMap]
+  constructor
+  · rintro (h | ⟨(h | ⟨n, hn, h⟩), h2⟩)
+    · exact Or.inl h
+    · exact Or.inr ⟨Or.inl h, h2⟩
+    · refine Or.inr ⟨Or.inr ⟨n, hn, ?_⟩, h2⟩
+      rcases List.mem_append.mp h with h | h
+      · exact Or.inl (mem_ins.mp h)
+      · exact Or.inr h
+  · rintro (h | ⟨(h | ⟨n, hn, h⟩), h2⟩)
+    · exact Or.inl h
+    · exact Or.inr ⟨Or.inl h, h2⟩
+    · refine Or.inr ⟨Or.inr ⟨n, hn, ?_⟩, h2⟩
+      rcases h with h | h
+      · exact List.mem_append_left _ (mem_ins.mpr h)
+      · exact List.mem_append_right _ h
+
+/-- **C18_by_name_resolves**: how `extract` resolves a boundary value given as the name `s`
+    (`create_value_mapping(graph, include_subgraphs=False)`, then `values[s]`), for every source (graph,
+    function graph, view), with duplicate, empty and missing names:
+    1. *documented precedence* ("the first value with that name is returned"): the lookup is the lookup in
+       the flat list of (name, value) pairs in the order initializer dict, graph inputs, then node by node
+       inputs before outputs — an initializer key beats a graph input of that name, which beats any node value;
+       among node values the earliest node wins, an input of a node before an output of the same node;
+    2. the name is accepted exactly when something in the source is named `s`, and is otherwise rejected with
+       `ValueError` "not found" (values defined only in nested graphs do not count; `""` names nothing but a
+       possible initializer key);
+    3. *unique names*: when a name denotes at most one value among the candidates (decidable:
+       `namesUniqueB`), `s` resolves to THE value of the source named `s`. -/
+theorem C18_by_name_resolves (W : World) (T : Target) (s : String) :
+    ((valueMapping W T).lookup s = (nameCandidates W T).lookup s ∧
+     (nameCandidates W T).lookup s =
+       (T.inits.lookup s).or (((named W T.inputs).lookup s).or
+         ((named W (T.nodes.flatMap (fun n => (W.nodeD n).ins ++ (W.nodeD n).outputs))).lookup s))) ∧
+    ((checkArg W T (valueMapping W T) (.name s) = .ok () ↔ ∃ v, NamedBy W T s v) ∧
+     (checkArg W T (valueMapping W T) (.name s) = .error .nameNotFound ↔ ¬ ∃ v, NamedBy W T s v)) ∧
+    ((∀ k v v', NamedBy W T k v → NamedBy W T k v' → v = v') →
+      ∀ v, NamedBy W T s v → resolveArg (valueMapping W T) (.name s) = v) := by
+  have hl := lookup_valueMapping W T s
+  have hsome : ((valueMapping W T).lookup s).isSome ↔ ∃ v, NamedBy W T s v := by
+    rw [hl, lookup_isSome_iff]
+    exact ⟨fun ⟨v, hv⟩ => ⟨v, mem_nameCandidates.mp hv⟩, fun ⟨v, hv⟩ => ⟨v, mem_nameCandidates.mpr hv⟩⟩
+  refine ⟨⟨hl, ?_⟩, ⟨?_, ?_⟩, ?_⟩
+  · unfold nameCandidates
+    rw [named_append, List.lookup_append, List.lookup_append]
+  · rw [← hsome]
+    unfold checkArg
+    by_cases h : ((valueMapping W T).lookup s).isSome = true <;> simp [h]
+  · rw [← hsome]
+    unfold checkArg
+    by_cases h : ((valueMapping W T).lookup s).isSome = true <;> simp [h]
+  · intro huniq v hv
+    have hf : ∀ k v v', (k, v) ∈ nameCandidates W T → (k, v') ∈ nameCandidates W T → v = v' :=
+      fun k v v' h h' => huniq k v v' (mem_nameCandidates.mp h) (mem_nameCandidates.mp h')
+    have := (lookup_eq_some_iff_of_functional hf s v).mpr (mem_nameCandidates.mpr hv)
+    show ((valueMapping W T).lookup s).getD 0 = v
+    rw [hl, this]
+    rfl
+
+theorem checkArgs_error_iff (W : World) (T : Target) (m : NameMap) (e : Err) : ∀ (l : List Arg),
+    checkArgs W T m l = .error e ↔
+      ∃ pre a post, l = pre ++ a :: post ∧ (∀ b, b ∈ pre → checkArg W T m b = .ok ()) ∧
+        checkArg W T m a = .error e
+  | [] => by simp [checkArgs]
+  | a :: t => by
+    rw [checkArgs]
+    cases hc : checkArg W T m a with
+    | error e' =>
+      simp only []
+      constructor
+      · intro h
+        cases h
+        exact ⟨[], a, t, rfl, by simp, hc⟩
+      · rintro ⟨pre, a', post, hl, hpre, ha'⟩
+        cases pre with
+        | nil =>
+          simp only [List.nil_append, List.cons.injEq] at hl
+          obtain ⟨rfl, _⟩ := hl
+          rw [hc] at ha'; exact ha'
+        | cons b pre' =>
+          simp only [List.cons_append, List.cons.injEq] at hl
+          obtain ⟨rfl, _⟩ := hl
+          have := hpre a List.mem_cons_self
+          rw [hc] at this; cases this
+    | ok u =>
+      cases u
+      simp only []
+      rw [checkArgs_error_iff W T m e t]
+      constructor
+      · rintro ⟨pre, a', post, hl, hpre, ha'⟩
+        refine ⟨a :: pre, a', post, by simp [hl], ?_, ha'⟩
+        intro b hb
+        rcases List.mem_cons.mp hb with rfl | hb
+        · exact hc
+        · exact hpre b hb
+      · rintro ⟨pre, a', post, hl, hpre, ha'⟩
+        cases pre with
+        | nil =>
+          simp only [List.nil_append, List.cons.injEq] at hl
+          obtain ⟨rfl, _⟩ := hl
+          rw [hc] at ha'; cases ha'
+        | cons b pre' =>
+          simp only [List.cons_append, List.cons.injEq] at hl
+          obtain ⟨rfl, rfl⟩ := hl
+          exact ⟨pre', a', post, rfl, fun b hb => hpre b (List.mem_cons_of_mem _ hb), ha'⟩
+
+theorem findSubgraph_err {W : World} {fn : Bool} {g I O : List VId} {p : GId} {e : Err}
+    (h : findSubgraph W fn g I O p = .error e) : e = .unbounded ∨ e = .sortKey := by
+  unfold findSubgraph at h
+  simp only [] at h
+  split at h
+  · split at h
+    · cases h
+    · cases h; exact Or.inr rfl
+  · cases h; exact Or.inl rfl
+
+theorem viewInits_err {W : World} : ∀ (vs : List VId) (m : NameMap) (e : Err),
+    viewInits W vs m = .error e → e = .initNoName := by
+  intro vs
+  induction vs with
+  | nil => intro m e h; simp [viewInits] at h
+  | cons v t ih =>
+    intro m e h
+    rw [viewInits] at h
+    split at h
+    · cases h; rfl
+    · exact ih _ e h
+
+/-- the argument checks come first: an argument error of `extract` is the error of the first failing
+    argument in `itertools.chain(inputs, outputs)` -/
+theorem extract_arg_error (W : World) (T : Target) (ins outs : List Arg) (e : Err)
+    (he : e = .nameNotFound ∨ e = .notOwned) :
+    extract W T ins outs = .error e ↔ checkArgs W T (valueMapping W T) (ins ++ outs) = .error e := by
+  unfold extract
+  simp only []
+  constructor
+  · intro h
+    split at h
+    · rename_i e' he'; cases h; exact he'
+    · exfalso
+      split at h
+      · cases h; rcases he with h' | h' <;> cases h'
+      · split at h
+        · cases h; rcases he with h' | h' <;> cases h'
+        · split at h
+          · rename_i e' he'
+            cases h
+            rcases findSubgraph_err he' with h' | h' <;> subst h' <;> rcases he with h' | h' <;> cases h'
+          · split at h
+            · rename_i e' he'
+              cases h
+              have := viewInits_err _ _ _ he'
+              subst this
+              rcases he with h' | h' <;> cases h'
+            · split at h
+              · rename_i e' he'
+                cases h
+                rcases cloneG_err _ _ _ he' with h' | h' <;> subst h' <;> rcases he with h' | h' <;> cases h'
+              · cases h
+  · intro h
+    rw [h]
+
+/-- **C18_by_name_missing**: which error a missing name gives, and when.  `extract` raises "Value with name
+    ... not found" exactly when the FIRST argument of `inputs` followed by `outputs` that fails its check is
+    a name that nothing in the source carries (every argument before it is a known name or a value owned by
+    the source); it raises "does not belong" exactly when that first failing argument is a value object that
+    the source (not a view) does not own.  Both errors precede every other failure of `extract`. -/
+theorem C18_by_name_missing (W : World) (T : Target) (ins outs : List Arg) :
+    (extract W T ins outs = .error .nameNotFound ↔
+      ∃ pre s post, ins ++ outs = pre ++ Arg.name s :: post ∧
+        (∀ b, b ∈ pre → checkArg W T (valueMapping W T) b = .ok ()) ∧ ¬ ∃ v, NamedBy W T s v) ∧
+    (extract W T ins outs = .error .notOwned ↔
+      ∃ pre v post, ins ++ outs = pre ++ Arg.obj v :: post ∧
+        (∀ b, b ∈ pre → checkArg W T (valueMapping W T) b = .ok ()) ∧
+        T.kind ≠ Kind.view ∧ W.graphOf v ≠ T.gid) := by
+  constructor
+  · rw [extract_arg_error W T ins outs _ (Or.inl rfl), checkArgs_error_iff]
+    constructor
+    · rintro ⟨pre, a, post, hl, hpre, ha⟩
+      cases a with
+      | obj v => simp only [checkArg] at ha; split at ha <;> cases ha
+      | name s => exact ⟨pre, s, post, hl, hpre, (C18_by_name_resolves W T s).2.1.2.mp ha⟩
+    · rintro ⟨pre, s, post, hl, hpre, hs⟩
+      exact ⟨pre, .name s, post, hl, hpre, (C18_by_name_resolves W T s).2.1.2.mpr hs⟩
+  · rw [extract_arg_error W T ins outs _ (Or.inr rfl), checkArgs_error_iff]
+    constructor
+    · rintro ⟨pre, a, post, hl, hpre, ha⟩
+      cases a with
+      | obj v =>
+        refine ⟨pre, v, post, hl, hpre, ?_⟩
+        simp only [checkArg] at ha
+        split at ha
+        · rename_i hc
+          simp only [Bool.and_eq_true, bne_iff_ne, ne_eq] at hc
+          exact hc
+        · cases ha
+      | name s => simp only [checkArg] at ha; split at ha <;> cases ha
+    · rintro ⟨pre, v, post, hl, hpre, hk, hg⟩
+      refine ⟨pre, .obj v, post, hl, hpre, ?_⟩
+      simp only [checkArg]
+      have : (T.kind != Kind.view && W.graphOf v != T.gid) = true := by
+        simp only [Bool.and_eq_true, bne_iff_ne, ne_eq]
+        exact ⟨hk, hg⟩
+      rw [if_pos this]
+
+/-! ## every kind of source: graph, function, view (round 3) -/
+
+/-- **C18_order_view**: `C18_order` without the hypothesis that the node list is duplicate free — the node
+    list of a `GraphView` may be any list (a strict subset of the nodes of the graph the values live in,
+    another order, repeats).  The extracted nodes are duplicate free and are the LAST occurrences of the
+    listed nodes (`node_index` is a dict comprehension: a node listed twice is ordered by its last position),
+    restricted to the required ones; in particular a sublist of the source's node list. -/
+theorem C18_order_view {W : World} {fn : Bool} {g I O : List VId} {p : GId} {ns : List NId}
+    {ws : List VId} (h : findSubgraph W fn g I O p = .ok (ns, ws)) :
+    ns = (dedupLast g).filter (fun n => decide (n ∈ ns)) ∧ ns.Sublist g ∧ ns.Nodup := by
+  obtain ⟨_, h2, h3, _⟩ := findSubgraph_ok h
+  have hsub : ∀ x, x ∈ (walkFinal W fn I O p).nodesV → x ∈ g := by
+    intro x hx
+    have := List.all_eq_true.mp h2 x hx
+    simpa using this
+  have hnd : (walkFinal W fn I O p).nodesV.Nodup := walk_nodup _ (by simp [walkInit])
+  have e := sortByKey_lastIdx_eq_filter (g := g) hnd hsub
+  have hmem : ∀ n, decide (n ∈ ns) = decide (n ∈ (walkFinal W fn I O p).nodesV) := by
+    intro n
+    rw [h3, decide_eq_decide, mem_sortByKey]
+  have e' : ns = (dedupLast g).filter (fun n => decide (n ∈ ns)) := by
+    rw [show (fun n => decide (n ∈ ns)) = (fun n => decide (n ∈ (walkFinal W fn I O p).nodesV)) from
+      funext hmem]
+    rw [h3]; exact e
+  refine ⟨e', ?_, ?_⟩
+  · rw [e']; exact List.filter_sublist.trans (dedupLast_sublist g)
+  · rw [h3]; exact sortByKey_nodup hnd
+
+/-- what a successful `extract` returned, in terms of its arguments -/
+theorem extract_ok_io {W : World} {T : Target} {ins outs : List Arg} {view : View}
+    (h : extract W T ins outs = .ok view) :
+    view.inputs = ins.map (resolveArg (valueMapping W T)) ∧
+    view.outputs = outs.map (resolveArg (valueMapping W T)) ∧
+    checkArgs W T (valueMapping W T) (ins ++ outs) = .ok () := by
+  unfold extract at h
+  simp only [] at h
+  split at h
+  · cases h
+  · rename_i hok
+    split at h
+    · cases h
+    · split at h
+      · cases h
+      · split at h
+        · cases h
+        · split at h
+          · cases h
+          · split at h
+            · cases h
+            · cases h
+              exact ⟨rfl, rfl, hok⟩
+
+/-- **C18_nodes_exact_source**: `C18_nodes_exact` for the whole `extract` call on every kind of source — a
+    `Graph`, a `Function` (fields of `function.graph`) or a `GraphView` whose node list is any list.  Whenever
+    `extract` returns, its boundary is the resolved arguments and its node set is exactly the set of required
+    nodes for that boundary, relative to the graph `p` that owns the first requested output. -/
+theorem C18_nodes_exact_source {W : World} (S : Source) {ins outs : List Arg} {view : View}
+    (h : extract W S.target ins outs = .ok view) :
+    view.inputs = ins.map (resolveArg (valueMapping W S.target)) ∧
+    view.outputs = outs.map (resolveArg (valueMapping W S.target)) ∧
+    ∃ p, (∃ o rest, view.outputs = o :: rest ∧ W.graphOf o = some p) ∧
+      ∀ n, n ∈ view.nodes ↔ NeedN W p view.inputs view.outputs n := by
+  obtain ⟨p, inited, m', hp, hfind, _, _, _⟩ := extract_ok h
+  obtain ⟨hi, ho, _⟩ := extract_ok_io h
+  exact ⟨hi, ho, p, hp, fun n => C18_nodes_exact hfind n⟩
+
+/-- **C18_order_source**: `C18_order` for the whole `extract` call on every kind of source, with no
+    hypothesis on the node list: the extracted nodes are duplicate free, a sublist of the source's node list,
+    and ordered as the last occurrences of the listed nodes (for a `Graph` or `Function`, whose node list is
+    duplicate free: the original order).  A view that lists a node twice therefore contributes the node once,
+    at its last position — if that puts it after a consumer, the clone stage raises (`Err.cloneOuter`). -/
+theorem C18_order_source {W : World} (S : Source) {ins outs : List Arg} {view : View}
+    (h : extract W S.target ins outs = .ok view) :
+    view.nodes = (dedupLast S.nodes).filter (fun n => decide (n ∈ view.nodes)) ∧
+    view.nodes.Sublist S.nodes ∧ view.nodes.Nodup ∧
+    (S.nodes.Nodup → view.nodes = S.nodes.filter (fun n => decide (n ∈ view.nodes))) := by
+  obtain ⟨p, inited, m', hp, hfind, _, _, _⟩ := extract_ok h
+  obtain ⟨h1, h2, h3⟩ := C18_order_view hfind
+  refine ⟨h1, h2, h3, fun hnd => ?_⟩
+  have := h1
+  unfold Source.nodes at this hnd
+  rw [dedupLast_of_nodup hnd] at this
+  exact this
+
+/-- **C18_inits_source**: `C18_inits` for the whole `extract` call on every kind of source: every initializer
+    of the result is an initializer that is required or (source not a `Function`) a boundary input; and when
+    the recorded initializers have pairwise distinct names (`GraphView` keys its initializers by name), every
+    such value is an initializer of the result. -/
+theorem C18_inits_source {W : World} (S : Source) {ins outs : List Arg} {view : View}
+    (h : extract W S.target ins outs = .ok view) :
+    ∃ p, (∃ o rest, view.outputs = o :: rest ∧ W.graphOf o = some p) ∧
+      (∀ v, v ∈ view.inits → W.isInit v = true ∧
+        ((v ∈ view.inputs ∧ S.isFunction = false) ∨ Reach W p view.inputs view.outputs v)) ∧
+      ((∀ u u', W.isInit u = true → W.isInit u' = true → (W.val u).name = (W.val u').name → u = u') →
+        ∀ v, W.isInit v = true →
+          ((v ∈ view.inputs ∧ S.isFunction = false) ∨ Reach W p view.inputs view.outputs v) →
+          v ∈ view.inits) := by
+  obtain ⟨p, inited, m', hp, hfind, hsub, _, im, him, hinits⟩ := extract_ok h
+  refine ⟨p, hp, ?_, ?_⟩
+  · intro v hv
+    exact (C18_inits hfind v).mp (hsub v hv)
+  · intro hnames v hv hreq
+    have hinitOK : ∀ v, v ∈ inited → W.isInit v = true := fun v hv => ((C18_inits hfind v).mp hv).1
+    have hcomplete := (viewInits_complete inited [] im him (by intro kv hkv; cases hkv)
+      (by
+        intro u u' hu hu' hn
+        have h1 : u ∈ inited := hu.resolve_right (by simp)
+        have h2 : u' ∈ inited := hu'.resolve_right (by simp)
+        exact hnames u u' (hinitOK u h1) (hinitOK u' h2) hn)).2
+    rw [hinits]
+    exact hcomplete v ((C18_inits hfind v).mpr ⟨hv, hreq⟩)
+
 /-- **C18_independent** (from C13): the last statement of `extract` is `graph_view.clone()`, i.e. C13's
     `graphClone` with a fresh value map and `allow_outer_scope_values=False` applied to a `GraphView`.  For
     every heap `w` of C13's model (objects = cells: values, nodes, graphs, type / shape objects, metadata
@@ -589,6 +943,234 @@ theorem C18_captures_sound (W : World) (g : GraphT) (all : List GId) {k : GId} {
     intro hd
     obtain ⟨j, hj, e⟩ := (hptr n b s hn hb hs v).mp hd
     exact hno j ((mem_gidsG s j).mpr hj) e
+
+/-! ## the hypotheses of the evaluation theorems: discharged, or necessary (round 3) -/
+
+/-- with consistent producer pointers a value without producer is produced by no node of the list: the
+    hypothesis `hInit` of `C18_eval` ("the source produces no initializer") follows from `SourceOK` wherever
+    the proof uses it -/
+theorem notProduced_of_prod_none {W : World} {p : GId} {g : List NId} (hS : SourceOK W p g) {u : VId}
+    (hp : W.prod u = none) : NotProducedIn W g u := by
+  intro m hm ho
+  have := hS.prodOut m hm u ho
+  rw [hp] at this
+  cases this
+
+/-- **C18_eval_strong**: `C18_eval` without its hypothesis `hInit` (the source produces no initializer): that
+    hypothesis is redundant — it is only used for required values without producer, and for those it follows
+    from the consistency of the producer pointers (`SourceOK.prodOut`) — and with the hypothesis on the
+    initializers of the extracted graph asked only where it is used: at the required values that no node
+    produces (`hW`; implied by the `hW` of `C18_eval` through `C18_inits`).  Supersedes `C18_eval`. -/
+theorem C18_eval_strong {α : Type} {W : World} {fn : Bool} {g I O : List VId} {p : GId} {ns : List NId}
+    {ws : List VId} (S : Sem α) (env0 env1 : Env α) (fz : List VId)
+    (h : findSubgraph W fn g I O p = .ok (ns, ws))
+    (hS : SourceOK W p g)
+    (hcap : ∀ n, n ∈ g → CapturesCover W p n)
+    (hcov : ∀ u, Reach W p I O u → W.prod u = none → W.isInit u = true)
+    (hK : ∀ u, W.isInit u = true → env0 u = S.const u)
+    (hfz : ∀ u, u ∈ fz → u ∈ I)
+    (hI : ∀ u, u ∈ I → env1 u = evalTop S W g env0 u)
+    (hW : ∀ u, Reach W p I O u → W.prod u = none → env1 u = S.const u) :
+    ∀ o, o ∈ O → evalRegion S W fz ns env1 o = evalTop S W g env0 o := by
+  intro o ho
+  rw [evalRegion_eq, evalTop_eq]
+  have hI' : ∀ u, u ∈ I → env1 u = evalNodes W (S.interp W) g env0 u := by
+    intro u hu; rw [← evalTop_eq]; exact hI u hu
+  have hord := (C18_order h hS.nodup).1
+  have hkeep : ∀ n, n ∈ g → (decide (n ∈ ns) = true ↔ NeedN W p I O n) := by
+    intro n _
+    rw [decide_eq_true_eq]
+    exact C18_nodes_exact h n
+  have hgood : o ∈ I ∨ Reach W p I O o := by
+    by_cases hoI : o ∈ I
+    · exact Or.inl hoI
+    · exact Or.inr (Reach.out ho hoI)
+  rw [hord]
+  refine eval_agree_aux (fun n => decide (n ∈ ns)) fz env0 env1
+    (fun n hn => interp_localAt S (hcap n hn)) hS hkeep hfz hI' g [] rfl ?_ o hgood
+  intro u hu hnp
+  simp only [List.filter_nil, evalNodesFz, List.foldl_nil]
+  rcases hu with hu | hu
+  · exact hI' u hu
+  · cases hp : W.prod u with
+    | none =>
+      have hinit : W.isInit u = true := hcov u hu hp
+      rw [hW u hu hp]
+      rw [evalNodes_not_produced _ _ (notProduced_of_prod_none hS hp)]
+      exact (hK u hinit).symm
+    | some m =>
+      exfalso
+      have hm : m ∈ ns := (C18_nodes_exact h m).mpr ⟨u, hu, hp⟩
+      have hmg : m ∈ g := (C18_order h hS.nodup).2.subset hm
+      exact hnp m hmg (hS.outProd u m hp)
+
+/-- a required value that no node produces is, after a successful clone of the view, one of the view's
+    initializers (scoping hypothesis as in `C18_cover_of_clone`) -/
+theorem reach_unproduced_in_inits {W : World} {fn : Bool} {g I O : List VId} {p : GId} {ns : List NId}
+    {ws inits m' : List VId} (h : findSubgraph W fn g I O p = .ok (ns, ws))
+    (hc : cloneG [] (.mk 0 I inits O (ns.map W.nodeD)) = .ok m')
+    (hprod : ∀ n, n ∈ ns → ∀ o, o ∈ (W.nodeD n).outputs → W.prod o = some n)
+    (hscope : ∀ u, Reach W p I O u → ∀ n, n ∈ ns → ∀ b, b ∈ (W.nodeD n).bodies → ¬ DefInG b u) :
+    ∀ u, Reach W p I O u → W.prod u = none → u ∈ inits := by
+  intro u hu hp
+  have hspec := cloneG_spec _ _ _ hc
+  have hmem : u ∈ m' := by
+    cases hu with
+    | out ho _ => exact hspec.2.2.2 u ho
+    | @step v _ n hr hpv hn _ =>
+      have hnn : n ∈ ns := (C18_nodes_exact h n).mpr ⟨v, hr, hpv⟩
+      have hnode : W.nodeD n ∈ (GraphT.mk 0 I inits O (ns.map W.nodeD)).nodes := by
+        simp only [GraphT.nodes_mk, List.mem_map]; exact ⟨n, hnn, rfl⟩
+      apply hspec.2.2.1 u
+      rcases hn with hd | ⟨b, hb, hub, _⟩
+      · exact UsedInG.node hnode (UsedInN.direct hd)
+      · exact UsedInG.node hnode (UsedInN.nested hb hub)
+  rcases hspec.2.1 u hmem with h0 | hd
+  · cases h0
+  · cases hd with
+    | input hi => exact absurd (by simpa using hi) hu.not_mem
+    | init hi => simpa using hi
+    | node hn hdn =>
+      simp only [GraphT.nodes_mk, List.mem_map] at hn
+      obtain ⟨n, hnn, rfl⟩ := hn
+      cases hdn with
+      | out ho => have := hprod n hnn u ho; rw [hp] at this; cases this
+      | nested hb hdb => exact absurd hdb (hscope u hu n hnn _ hb)
+
+/-- **C18_extract_eval_strong**: `C18_extract_eval` with two of its hypotheses discharged: "the source produces
+    no initializer" (`hInit`, redundant: `C18_eval_strong`) and "initializer names are pairwise distinct"
+    (`hnames`): if two required initializers shared a name the `GraphView` would keep one of them, and the
+    clone of the view — which succeeded — would have rejected the other; so every required initializer is an
+    initializer of the result.  Remaining hypotheses: `SourceOK` (sorted single-assignment source with
+    consistent producer pointers; all but order follow from C01, `C18_source_of_C01`; order is necessary,
+    `C18_eval_needs_sorted`), `CapturesCover` (necessary: `C18_eval_needs_closed`) and the scoping
+    hypothesis `hscope` (necessary: `C18_extract_eval_needs_scope`).  Supersedes `C18_extract_eval`. -/
+theorem C18_extract_eval_strong {α : Type} {W : World} {T : Target} {ins outs : List Arg} {view : View}
+    (S : Sem α) (env0 env1 : Env α) (h : extract W T ins outs = .ok view) :
+    ∃ p, (∃ o rest, view.outputs = o :: rest ∧ W.graphOf o = some p) ∧
+      (SourceOK W p T.nodes →
+       (∀ n, n ∈ T.nodes → CapturesCover W p n) →
+       (∀ u, Reach W p view.inputs view.outputs u → ∀ n, n ∈ view.nodes →
+          ∀ b, b ∈ (W.nodeD n).bodies → ¬ DefInG b u) →
+       (∀ u, W.isInit u = true → env0 u = S.const u) →
+       (∀ u, u ∈ view.inputs → env1 u = evalTop S W T.nodes env0 u) →
+       (∀ u, u ∈ view.inits → env1 u = S.const u) →
+       ∀ o, o ∈ view.outputs →
+         evalRegion S W (rewired W view) view.nodes env1 o = evalTop S W T.nodes env0 o) := by
+  obtain ⟨p, inited, m', hp, hfind, hsub, hclone, im, him, hinits⟩ := extract_ok h
+  refine ⟨p, hp, ?_⟩
+  intro hS hcap hscope hK hI hW
+  have hinitOK : ∀ v, v ∈ inited → W.isInit v = true := fun v hv => ((C18_inits hfind v).mp hv).1
+  have hnodes : ∀ n, n ∈ view.nodes → n ∈ T.nodes := fun n hn => (C18_order hfind hS.nodup).2.subset hn
+  have hprod := fun n hn => hS.prodOut n (hnodes n hn)
+  have hcov := C18_cover_of_clone hfind (fun v hv => hinitOK v (hsub v hv)) hclone hprod hscope
+  have hin := reach_unproduced_in_inits hfind hclone hprod hscope
+  refine C18_eval_strong S env0 env1 (rewired W view) hfind hS hcap hcov hK ?_ hI ?_
+  · intro u hu; exact (List.mem_filter.mp hu).1
+  · intro u hu hpu
+    exact hW u (hin u hu hpu)
+
+/-- **C18_source_of_C01**: for a graph built by ANY history of the C01 editing alphabet (`C01_history`: the
+    kernel invariant `Kernel.WF` holds), read as a world of this model (`ofKernel`: same creation indices; graph
+    attributes of kernel nodes are dropped, so this speaks about graphs whose nodes hold no subgraph), every hypothesis of
+    `C18_eval` / `C18_extract_eval` about the source is discharged except topological order: the node list is
+    duplicate free, `producer()` pointers and node outputs agree in both directions, no initializer is
+    produced, captures are covered and no required value is defined in a nested graph (vacuously).  Order is
+    not implied by `WF` (a `Graph` may hold its nodes in any order) and is necessary: `C18_eval_needs_sorted`. -/
+theorem C18_source_of_C01 (w : Kernel.World) (h : Kernel.WF w) (gid p : Nat) :
+    (w.gr gid).nodes.Nodup ∧
+    (∀ n, n ∈ (w.gr gid).nodes → ∀ o, o ∈ ((ofKernel w).nodeD n).outputs → (ofKernel w).prod o = some n) ∧
+    (∀ v n, (ofKernel w).prod v = some n → v ∈ ((ofKernel w).nodeD n).outputs) ∧
+    (∀ u, (ofKernel w).isInit u = true → NotProducedIn (ofKernel w) (w.gr gid).nodes u) ∧
+    (∀ n, CapturesCover (ofKernel w) p n) ∧
+    (∀ u n b, b ∈ ((ofKernel w).nodeD n).bodies → ¬ DefInG b u) ∧
+    (TopoSorted (ofKernel w) p (w.gr gid).nodes → SourceOK (ofKernel w) p (w.gr gid).nodes) := by
+  have hprodOut : ∀ n o, o ∈ ((ofKernel w).nodeD n).outputs → (ofKernel w).prod o = some n := by
+    intro n o ho
+    rw [ofKernel_nodeD] at ho
+    simp only [NodeT.outputs_mk] at ho
+    obtain ⟨i, hi⟩ := List.mem_iff_getElem?.mp ho
+    rw [ofKernel_prod h]
+    exact ((h.prod.1 n i o).mp hi).1
+  have houtProd : ∀ v n, (ofKernel w).prod v = some n → v ∈ ((ofKernel w).nodeD n).outputs := by
+    intro v n hp
+    rw [ofKernel_prod h] at hp
+    obtain ⟨i, hi⟩ := h.prod.2 v n hp
+    have := (h.prod.1 n i v).mpr ⟨hp, hi⟩
+    rw [ofKernel_nodeD]
+    simp only [NodeT.outputs_mk]
+    exact List.mem_iff_getElem?.mpr ⟨i, this⟩
+  refine ⟨h.node.nodup gid, fun n _ o ho => hprodOut n o ho, houtProd, ?_, ?_, ?_, ?_⟩
+  · intro u hu m _ ho
+    have hp := hprodOut m u ho
+    rw [ofKernel_prod h] at hp
+    have hinit : (w.val u).isInit = true := by
+      unfold World.isInit at hu
+      rw [ofKernel_val] at hu
+      exact hu
+    rw [h.root u (Or.inr hinit)] at hp
+    cases hp
+  · intro n u hu
+    rw [ofKernel_nodeD] at hu
+    simp only [freeN, freeGs, List.append_nil] at hu
+    left
+    rw [ofKernel_nodeD]
+    simpa [List.mem_filterMap] using hu
+  · intro u n b hb
+    rw [ofKernel_nodeD] at hb
+    simp at hb
+  · intro hsorted
+    exact ⟨h.node.nodup gid, fun n _ o ho => hprodOut n o ho, houtProd, hsorted⟩
+
+/-! ## capture analysis: exact, for every root and every attribute kind, at any depth (round 3) -/
+
+/-- **C18_captures_exact**: the entry of a nested graph is EXACTLY its set of free variables.  For every graph
+    `s` nested at any depth (no bound) in the analysed root — reached through `GRAPH` attributes, through any
+    member of a `GRAPHS` attribute, never through a reference attribute (`C18_attrs_bodies`) — the entry
+    `analyze_implicit_usage(root)[s]` contains `v` iff `v` is read by a node of `s` or of a graph nested in
+    `s` and defined (input, initializer, node output) neither in `s` nor in a graph nested in `s`.
+    Hypotheses (decidable, evaluated on every generated case): uses are scoped by owner (`scopedGB`), the
+    `.graph` back pointers are consistent on the nested graphs (`backPtrB`), and distinct nested graphs have
+    distinct identities (`uniqueGidsB`).  Combines `C18_captures_complete` and `C18_captures_sound`. -/
+theorem C18_captures_exact (W : World) (g : GraphT) (all : List GId)
+    (hscoped : ∀ n b, n ∈ g.nodes → b ∈ n.bodies → scopedGB W all [] b = true)
+    (hptr : ∀ n b s, n ∈ g.nodes → b ∈ n.bodies → SubG b s → BackPtrOK W s)
+    (huniq : uniqueGidsB g.nodes = true)
+    {n : NodeT} {b s : GraphT} (hn : n ∈ g.nodes) (hb : b ∈ n.bodies) (hs : SubG b s) (v : VId) :
+    v ∈ (analyze W g).get s.gid ↔ FreeOf s v := by
+  constructor
+  · intro h
+    obtain ⟨n', b', s', hn', hb', hs', hk, hfree⟩ := C18_captures_sound W g all hscoped hptr h
+    have : s' = s := uniqueGids_of_B huniq hn' hb' hs' hn hb hs hk
+    rw [← this]; exact hfree
+  · intro h
+    exact C18_captures_complete W g hn hb hs (hptr n b s hn hb hs) h
+
+/-- **C18_captures_any_root**: `analyze_implicit_usage` only iterates its argument and never looks at
+    `graph_stack[0]`, so the result is the same for every root that has these nodes: a `Graph`, the graph of a
+    `Function`, or the `Function` object itself (`root` is the identity of whatever was passed).  Hence all
+    `C18_captures_*` theorems hold verbatim for function bodies. -/
+theorem C18_captures_any_root (W : World) (root : GId) (g : GraphT) (k : GId) :
+    (∀ v, v ∈ (analyzeNodes W root g.nodes).get k ↔ v ∈ (analyze W g).get k) ∧
+    ((analyzeNodes W root g.nodes).HasKey k ↔ (analyze W g).HasKey k) := by
+  unfold analyzeNodes analyze
+  constructor
+  · intro v
+    rw [mem_get, mem_get, (foldl_procN_spec W root k v g.nodes []).1,
+      (foldl_procN_spec W g.gid k v g.nodes []).1]
+  · rw [(foldl_procN_spec W root k 0 g.nodes []).2 k, (foldl_procN_spec W g.gid k 0 g.nodes []).2 k]
+
+/-- **C18_attrs_bodies**: how the two traversals read graph-valued attributes (extractor 88-102, analysis
+    58-79; after D152): branch by branch over `node.attributes.values()` — a reference attribute (also one
+    declared GRAPH / GRAPHS) is skipped, a `GRAPH` attribute contributes its graph, a `GRAPHS` attribute each
+    of its graphs in order, anything else nothing — they do exactly what the model does on the flattened list
+    `attrBodies`, which is what `NodeT.bodies` holds.  So every theorem stated on `bodies` covers `GRAPHS`
+    members and excludes reference attributes. -/
+theorem C18_attrs_bodies (W : World) (p : GId) (stack : List GId) (u : Usages)
+    (ins : List (Option VId)) (outs : List VId) (as : List AttrT) :
+    procAttrs W stack u as = procN W stack u (.mk ins outs (attrBodies as)) ∧
+    capturedAttrs W p as = captured W p (.mk ins outs (attrBodies as)) :=
+  ⟨by rw [procAttrs_eq]; rfl, capturedAttrs_eq W p ins outs as⟩
 
 /-! ## non-vacuity: a concrete world on which every hypothesis and every branch is realised
 
@@ -770,37 +1352,313 @@ example : 0 ∈ (analyze exW exRoot).get 1 :=
   C18_captures_complete exW exRoot (n := .mk [some 2, none] [3] [exBody]) (b := exBody) (s := exBody)
     (by simp [exRoot, exW, exBody]) (by simp) SubG.self exBody_ptr
     ((C18_external_free exW 0 exBody 0 exBody_ptr exBody_notNested).mp (by decide))
+theorem exRoot_scoped : ∀ n b, n ∈ exRoot.nodes → b ∈ n.bodies → scopedGB exW [1] [] b = true := by
+  intro n b hn hb
+  have hn' : n = .mk [some 0, some 1] [2] [] ∨ n = .mk [some 2, none] [3] [exBody] ∨
+      n = .mk [some 0] [4] [] := by simpa [exRoot, exW, exBody] using hn
+  rcases hn' with rfl | rfl | rfl
+  · simp at hb
+  · have : b = exBody := by simpa using hb
+    subst this; decide
+  · simp at hb
+
+theorem exRoot_ptr : ∀ n b s, n ∈ exRoot.nodes → b ∈ n.bodies → SubG b s → BackPtrOK exW s := by
+  intro n b s hn hb hs
+  have hn' : n = .mk [some 0, some 1] [2] [] ∨ n = .mk [some 2, none] [3] [exBody] ∨
+      n = .mk [some 0] [4] [] := by simpa [exRoot, exW, exBody] using hn
+  have hbe : b = exBody := by
+    rcases hn' with rfl | rfl | rfl
+    · simp at hb
+    · simpa using hb
+    · simp at hb
+  subst hbe
+  cases hs with
+  | self => exact exBody_ptr
+  | @deeper _ c _ nd hn2 hc2 _ =>
+    have : nd = NodeT.mk [some 0] [4] [] := by simpa [exBody] using hn2
+    subst this
+    simp at hc2
+
 /-- hypotheses of C18_captures_sound are met on the example (scoping by owner + consistent back pointers) -/
 example : ∃ n b s, n ∈ exRoot.nodes ∧ b ∈ n.bodies ∧ SubG b s ∧ s.gid = 1 ∧ FreeOf s 0 :=
-  C18_captures_sound exW exRoot [1] (k := 1) (v := 0)
-    (by
-      intro n b hn hb
-      have hn' : n = .mk [some 0, some 1] [2] [] ∨ n = .mk [some 2, none] [3] [exBody] ∨
-          n = .mk [some 0] [4] [] := by simpa [exRoot, exW, exBody] using hn
-      rcases hn' with rfl | rfl | rfl
-      · simp at hb
-      · have : b = exBody := by simpa using hb
-        subst this; decide
-      · simp at hb)
-    (by
-      intro n b s hn hb hs
-      have hn' : n = .mk [some 0, some 1] [2] [] ∨ n = .mk [some 2, none] [3] [exBody] ∨
-          n = .mk [some 0] [4] [] := by simpa [exRoot, exW, exBody] using hn
-      have hbe : b = exBody := by
-        rcases hn' with rfl | rfl | rfl
-        · simp at hb
-        · simpa using hb
-        · simp at hb
-      subst hbe
-      cases hs with
-      | self => exact exBody_ptr
-      | @deeper _ c _ nd hn2 hc2 _ =>
-        have : nd = NodeT.mk [some 0] [4] [] := by simpa [exBody] using hn2
-        subst this
-        simp at hc2)
-    (by decide)
+  C18_captures_sound exW exRoot [1] (k := 1) (v := 0) exRoot_scoped exRoot_ptr (by decide)
+/-- C18_captures_exact with all its hypotheses met: the entry of the nested graph is `{x}` exactly -/
+example : ∀ v, v ∈ (analyze exW exRoot).get exBody.gid ↔ FreeOf exBody v :=
+  C18_captures_exact exW exRoot [1] exRoot_scoped exRoot_ptr (by decide)
+    (n := .mk [some 2, none] [3] [exBody]) (b := exBody) (s := exBody)
+    (by simp [exRoot, exW, exBody]) (by simp) SubG.self
+/-- C18_captures_any_root: analysing the same nodes under another root identity (a Function object) -/
+example : 0 ∈ (analyzeNodes exW 99 exRoot.nodes).get 1 :=
+  ((C18_captures_any_root exW 99 exRoot 1).1 0).mpr (by decide)
+/-- C18_attrs_bodies: a reference attribute and a non-graph attribute contribute nothing, a GRAPHS attribute
+    its members -/
+example : attrBodies [.ref, .graphs [exBody, exBody], .other, .graph exBody] = [exBody, exBody, exBody] := rfl
 example : (analyze exW exRoot).HasKey 1 :=
   (C18_captures_keys exW exRoot 1).mpr ⟨.mk [some 2, none] [3] [exBody], by simp [exRoot, exW, exBody],
     exBody, by simp, NestedIn.self⟩
+
+/-! ### non-vacuity of the round-3 theorems -/
+
+/-- C18_by_name_resolves, uniqueness clause: names are unique on the example and `"a"` resolves to value 2 -/
+example : resolveArg (valueMapping exW exT) (.name "a") = 2 :=
+  (C18_by_name_resolves exW exT "a").2.2
+    (fun k v v' h h' => namesUnique_of_B (W := exW) (T := exT) (by decide) k v v'
+      (mem_nameCandidates.mpr h) (mem_nameCandidates.mpr h'))
+    2 (mem_nameCandidates.mp (by decide))
+/-- duplicate names: an initializer key wins over a graph input and a node output of the same name -/
+def exDup : World :=
+  { vals := [ { name := "a", graph := some 0 }, { name := "a", graph := some 0, isInit := true },
+              { name := "a", producer := some 0, graph := some 0 } ],
+    nodes := [ .mk [some 0, some 1] [2] [] ] }
+def exDupT : Target := { kind := .graph, gid := some 0, inputs := [0], inits := [("a", 1)], nodes := [0] }
+example : namesUniqueB exDup exDupT = false := by decide
+example : resolveArg (valueMapping exDup exDupT) (.name "a") = 1 := by decide
+/-- without the initializer the graph input wins over the node output -/
+example : resolveArg (valueMapping exDup { exDupT with inits := [] }) (.name "a") = 0 := by decide
+/-- C18_by_name_missing: both sides of both equivalences are realised -/
+example : extract exW exT [.name "x"] [.name "zz", .obj 4] = .error .nameNotFound := by decide +kernel
+example : extract exW exT [.name "x"] [.obj 4, .name "zz"] = .error .notOwned := by decide +kernel
+example : ∃ pre s post, [Arg.name "x"] ++ [Arg.name "zz", Arg.obj 4] = pre ++ Arg.name s :: post ∧
+    (∀ b, b ∈ pre → checkArg exW exT (valueMapping exW exT) b = .ok ()) ∧ ¬ ∃ v, NamedBy exW exT s v :=
+  (C18_by_name_missing exW exT [.name "x"] [.name "zz", .obj 4]).1.mp (by decide +kernel)
+/-- C18_order_view: a view that lists node 1 twice and node 0 in between: node 1 counts at its last position -/
+example : findSubgraph exW false [1, 0, 1] [0] [3] 0 = .ok ([0, 1], [1]) := by decide +kernel
+/-- ... and a view that lists the consumer last-but-first: the order follows the view, not the graph -/
+example : findSubgraph exW false [1, 0] [0] [3] 0 = .ok ([1, 0], [1]) := by decide +kernel
+example : dedupLast [1, 0, 1] = [0, 1] := by decide
+/-- hypothesis of the `_source` theorems for each kind of source -/
+example : extract exW (Source.view [0] [("w", 1)] [1, 0, 1]).target [.name "x"] [.name "b"]
+    = .ok { inputs := [0], outputs := [3], nodes := [0, 1], inits := [1] } := by decide +kernel
+example : extract exW (Source.function 0 [0] [("w", 1)] [0, 1]).target [.obj 0] [.obj 3]
+    = .ok { inputs := [0], outputs := [3], nodes := [0, 1], inits := [1] } := by decide +kernel
+example : extract exW (Source.graph 0 [0] [("w", 1)] [0, 1]).target [.obj 0] [.obj 3]
+    = .ok { inputs := [0], outputs := [3], nodes := [0, 1], inits := [1] } := by decide +kernel
+/-- a view in consumer-first order passes the region search but not the clone -/
+example : extract exW (Source.view [0] [("w", 1)] [1, 0]).target [.name "x"] [.name "b"]
+    = .error .cloneOuter := by decide +kernel
+/-- C18_source_of_C01: the hypothesis is the C01 invariant, which holds initially and after every history
+    (`C01_init`, `C01_history`) -/
+example : ([] : List Nat).Nodup := (C18_source_of_C01 Kernel.World.empty Kernel.WF_empty 0 0).1
+/-- C18_extract_eval_strong with all its hypotheses met (same cut as for C18_extract_eval) -/
+example (env0 : Env Nat) (h0 : env0 1 = 7) : ∀ o, o ∈ [3] →
+    evalRegion exS exW [] [1] (evalTop exS exW [0, 1] env0) o = evalTop exS exW [0, 1] env0 o := by
+  have hx : extract exW exT [.obj 2, .name "x"] [.name "b"]
+      = .ok { inputs := [2, 0], outputs := [3], nodes := [1], inits := [] } := by decide +kernel
+  obtain ⟨p, ⟨o, rest, ho, hp⟩, himp⟩ := C18_extract_eval_strong exS env0 (evalTop exS exW [0, 1] env0) hx
+  have hp0 : p = 0 := by
+    simp only [List.cons.injEq] at ho
+    obtain ⟨rfl, _⟩ := ho
+    have : exW.graphOf 3 = some 0 := by decide
+    rw [this] at hp; exact (Option.some.inj hp).symm
+  subst hp0
+  have hrw : rewired exW { inputs := [2, 0], outputs := [3], nodes := [1], inits := [] } = [] := by decide
+  rw [hrw] at himp
+  exact himp exW_sourceOK.1 exW_cover (scope_of_B (fn := false) (by decide +kernel))
+    (by intro u hu; rw [exW_init_eq u hu]; exact h0) (fun _ _ => rfl)
+    (by intro u hu; cases hu)
+
+/-! ## necessity of the remaining hypotheses (round 3): counterexamples in the model
+
+Each theorem exhibits a concrete world in which every OTHER hypothesis of the named theorem holds, the region
+search (or `extract`) returns, and the conclusion fails.  The same shapes are replayed on the real code on
+every run (`corpus/C18/necessity.jsonl`, stream `necessity`), where they must raise or be reported. -/
+
+/-- decidable form of the two producer-pointer clauses of `SourceOK` -/
+def ptrOKB (W : World) (g : List NId) : Bool :=
+  g.all (fun n => (W.nodeD n).outputs.all (fun o => W.prod o == some n)) &&
+  (List.range W.vals.length).all (fun v => match W.prod v with
+    | some n => (W.nodeD n).outputs.contains v
+    | none => true)
+
+theorem ptrOK_of_B {W : World} {g : List NId} (h : ptrOKB W g = true) :
+    (∀ n, n ∈ g → ∀ o, o ∈ (W.nodeD n).outputs → W.prod o = some n) ∧
+    (∀ v n, W.prod v = some n → v ∈ (W.nodeD n).outputs) := by
+  unfold ptrOKB at h
+  rw [Bool.and_eq_true] at h
+  obtain ⟨h2, h3⟩ := h
+  constructor
+  · intro n hn o ho
+    have := List.all_eq_true.mp (List.all_eq_true.mp h2 n hn) o ho
+    simpa using this
+  · intro v n hp
+    by_cases hv : v < W.vals.length
+    · have := List.all_eq_true.mp h3 v (List.mem_range.mpr hv)
+      rw [hp] at this
+      simpa using this
+    · rw [prod_out_of_range (Nat.le_of_not_lt hv)] at hp; cases hp
+
+/-- unsorted source: node 0 computes `b` from `a`, node 1 computes `a` from `x` -/
+def necW1 : World :=
+  { vals := [ { name := "x", graph := some 0 }, { name := "a", producer := some 1, graph := some 0 },
+              { name := "b", producer := some 0, graph := some 0 } ],
+    nodes := [ .mk [some 1] [2] [], .mk [some 0] [1] [] ] }
+
+/-- **C18_eval_needs_sorted**: topological order of the source (the `sorted` clause of `SourceOK`) is necessary
+    for `C18_eval` / `C18_eval_strong`.  In `necW1` every other hypothesis holds (duplicate-free list,
+    consistent producer pointers, covered captures, no uncovered value, environments as required), the region
+    search returns both nodes in their original (unsorted) order, and the extracted list computes a value that
+    depends on what its environment holds at `a` — not the source's value.  (On the real code the clone stage
+    raises for such a region: stream `necessity`.) -/
+theorem C18_eval_needs_sorted :
+    ∃ (W : World) (g I O : List VId) (p : GId) (ns : List NId) (env0 env1 : Env Nat),
+      findSubgraph W false g I O p = .ok (ns, []) ∧
+      g.Nodup ∧ (∀ n, n ∈ g → ∀ o, o ∈ (W.nodeD n).outputs → W.prod o = some n) ∧
+      (∀ v n, W.prod v = some n → v ∈ (W.nodeD n).outputs) ∧
+      (∀ n, n ∈ g → CapturesCover W p n) ∧
+      (∀ u, Reach W p I O u → W.prod u = none → W.isInit u = true) ∧
+      (∀ u, W.isInit u = true → env0 u = exS.const u) ∧
+      (∀ u, u ∈ I → env1 u = evalTop exS W g env0 u) ∧
+      ¬ TopoSorted W p g ∧
+      ¬ (∀ o, o ∈ O → evalRegion exS W [] ns env1 o = evalTop exS W g env0 o) := by
+  refine ⟨necW1, [0, 1], [0], [2], 0, [0, 1], fun _ => 0, fun u => if u = 1 then 5 else 0,
+    by decide +kernel, by decide, (ptrOK_of_B (g := [0, 1]) (by decide)).1, (ptrOK_of_B (g := [0, 1]) (by decide)).2, ?_, ?_, ?_, ?_, ?_, ?_⟩
+  · intro n hn
+    have : n = 0 ∨ n = 1 := by simpa using hn
+    rcases this with rfl | rfl
+    · exact capturesCover_of_bodiesOK (bodiesOK_of_B (by decide))
+    · exact capturesCover_of_bodiesOK (bodiesOK_of_B (by decide))
+  · intro u hu hp
+    have hv := (C18_values_exact necW1 false [0] [2] 0 u).mpr (Or.inr hu)
+    have hfin : (walkFinal necW1 false [0] [2] 0).valsV = [0, 2, 1] := by decide +kernel
+    rw [hfin] at hv
+    have : u = 0 ∨ u = 2 ∨ u = 1 := by simpa using hv
+    rcases this with rfl | rfl | rfl
+    · exact absurd (List.mem_singleton.mpr rfl) hu.not_mem
+    · exact absurd hp (by decide)
+    · exact absurd hp (by decide)
+  · intro u hu
+    exfalso
+    match u, hu with
+    | 0, hu | 1, hu | 2, hu => revert hu; decide
+    | u + 3, hu => rw [isInit_out_of_range (by simp [necW1])] at hu; cases hu
+  · intro u hu
+    have : u = 0 := by simpa using hu
+    subst this
+    decide
+  · intro h
+    exact h.1 1 (Or.inl (by decide)) 1 (by decide) (by decide)
+  · intro h
+    have := h 2 (by decide)
+    revert this
+    decide
+
+/-- a nested graph whose output is a value of the enclosing graph, returned directly: node 0 computes `c`
+    from `x`; node 1 holds a graph (id 1) without nodes whose output is `c` -/
+def necW2 : World :=
+  { vals := [ { name := "x", graph := some 0 }, { name := "c", producer := some 0, graph := some 0 },
+              { name := "y", producer := some 1, graph := some 0 } ],
+    nodes := [ .mk [some 0] [1] [], .mk [] [2] [.mk 1 [] [] [1] []] ] }
+
+/-- **C18_eval_needs_closed**: `CapturesCover` — and with it the `closedG` clause of `bodiesOKB` (every output
+    of a nested graph is bound inside that graph) — is necessary for `C18_eval` / `C18_eval_strong`.  The code
+    collects the captured values of a nested graph from the INPUTS of its nodes only; a nested graph that
+    returns an outer value directly reads that value without any node reading it.  In `necW2` the source is
+    sorted, single-assignment, with consistent pointers, the nested graph is well scoped with consistent back
+    pointers, the region search returns node 1 alone, and the extracted list computes `y` from whatever its
+    environment holds at `c`.  (On the real code the clone stage raises: stream `necessity`.  Such a source is
+    not valid ONNX — onnx.checker: "Graph output is not an output of any node in graph" — so that
+    `analyze_implicit_usage` does not list `c` for the nested graph is recorded, not reported as a defect.) -/
+theorem C18_eval_needs_closed :
+    ∃ (W : World) (g I O : List VId) (p : GId) (ns : List NId) (env0 env1 : Env Nat),
+      findSubgraph W false g I O p = .ok (ns, []) ∧
+      SourceOK W p g ∧
+      (∀ n, n ∈ g → ∀ b, b ∈ (W.nodeD n).bodies →
+        wellScopedB b = true ∧ backPtrB W b = true ∧ (gidsG b).contains p = false) ∧
+      (∀ u, Reach W p I O u → W.prod u = none → W.isInit u = true) ∧
+      (∀ u, W.isInit u = true → env0 u = exS.const u) ∧
+      (∀ u, u ∈ I → env1 u = evalTop exS W g env0 u) ∧
+      ¬ (∀ n, n ∈ g → CapturesCover W p n) ∧
+      ¬ (∀ o, o ∈ O → evalRegion exS W [] ns env1 o = evalTop exS W g env0 o) := by
+  refine ⟨necW2, [0, 1], [0], [2], 0, [1], fun _ => 0, fun u => if u = 1 then 5 else 0,
+    by decide +kernel, (sourceOK_of_B (by decide)).1, by decide, ?_, ?_, ?_, ?_, ?_⟩
+  · intro u hu hp
+    have hv := (C18_values_exact necW2 false [0] [2] 0 u).mpr (Or.inr hu)
+    have hfin : (walkFinal necW2 false [0] [2] 0).valsV = [0, 2] := by decide +kernel
+    rw [hfin] at hv
+    have : u = 0 ∨ u = 2 := by simpa using hv
+    rcases this with rfl | rfl
+    · exact absurd (List.mem_singleton.mpr rfl) hu.not_mem
+    · exact absurd hp (by decide)
+  · intro u hu
+    exfalso
+    match u, hu with
+    | 0, hu | 1, hu | 2, hu => revert hu; decide
+    | u + 3, hu => rw [isInit_out_of_range (by simp [necW2])] at hu; cases hu
+  · intro u hu
+    have : u = 0 := by simpa using hu
+    subst this
+    decide
+  · intro h
+    have h1 := h 1 (by decide) 1 (by decide)
+    rcases h1 with h1 | ⟨b, hb, hu, _⟩
+    · revert h1; decide
+    · have hb' : b = .mk 1 [] [] [1] [] := by simpa [necW2, World.nodeD] using hb
+      subst hb'
+      have := (mem_usedG _ 1).mpr hu
+      revert this; decide
+  · intro h
+    have := h 2 (by decide)
+    revert this
+    decide
+
+/-- a graph nested in node 1 reads the INPUT `u` of a sibling graph nested in node 0 (ill scoped) -/
+def necW3 : World :=
+  { vals := [ { name := "x", graph := some 0 }, { name := "u", graph := some 1 },
+              { name := "y0", producer := some 0, graph := some 0 },
+              { name := "t", producer := some 2, graph := some 2 },
+              { name := "y1", producer := some 1, graph := some 0 } ],
+    nodes := [ .mk [some 0] [2] [.mk 1 [1] [] [1] []],
+               .mk [some 2] [4] [.mk 2 [] [] [3] [.mk [some 1] [3] []]],
+               .mk [some 1] [3] [] ] }
+
+def necT3 : Target := { kind := .graph, gid := some 0, inputs := [0], inits := [], nodes := [0, 1] }
+
+/-- **C18_extract_eval_needs_scope**: the scoping hypothesis of `C18_cover_of_clone` / `C18_extract_eval`
+    (`hscope`, decidable `scopeB`: no required value is defined inside a graph nested in a kept node) is
+    necessary.  In `necW3` a nested graph of node 1 reads the input of a nested graph of node 0.  The whole
+    `extract` pipeline returns (the clone's value map is global, so the sibling's input is already mapped),
+    the source is sorted with consistent pointers, every nested graph is closed, well scoped with consistent
+    back pointers — and the extracted graph computes `y1` from whatever its environment holds at `u`.  (The
+    source is not valid ONNX; the real code also returns: stream `necessity`.) -/
+theorem C18_extract_eval_needs_scope :
+    ∃ (W : World) (T : Target) (ins outs : List Arg) (view : View) (env0 env1 : Env Nat),
+      extract W T ins outs = .ok view ∧
+      (∃ o rest, view.outputs = o :: rest ∧ W.graphOf o = some 0) ∧
+      SourceOK W 0 T.nodes ∧
+      (∀ n, n ∈ T.nodes → CapturesCover W 0 n) ∧
+      (∀ u, W.isInit u = true → env0 u = exS.const u) ∧
+      (∀ u, u ∈ view.inputs → env1 u = evalTop exS W T.nodes env0 u) ∧
+      (∀ u, u ∈ view.inits → env1 u = exS.const u) ∧
+      ¬ (∀ u, Reach W 0 view.inputs view.outputs u → ∀ n, n ∈ view.nodes →
+          ∀ b, b ∈ (W.nodeD n).bodies → ¬ DefInG b u) ∧
+      ¬ (∀ o, o ∈ view.outputs →
+          evalRegion exS W (rewired W view) view.nodes env1 o = evalTop exS W T.nodes env0 o) := by
+  refine ⟨necW3, necT3, [.obj 0], [.obj 4], { inputs := [0], outputs := [4], nodes := [0, 1], inits := [] },
+    fun _ => 0, fun u => if u = 1 then 5 else 0, by decide +kernel, ⟨4, [], rfl, by decide⟩,
+    (sourceOK_of_B (by decide)).1, ?_, ?_, ?_, ?_, ?_, ?_⟩
+  · intro n hn
+    have : n = 0 ∨ n = 1 := by simpa [necT3] using hn
+    rcases this with rfl | rfl
+    · exact capturesCover_of_bodiesOK (bodiesOK_of_B (by decide))
+    · exact capturesCover_of_bodiesOK (bodiesOK_of_B (by decide))
+  · intro u hu
+    exfalso
+    match u, hu with
+    | 0, hu | 1, hu | 2, hu | 3, hu | 4, hu => revert hu; decide
+    | u + 5, hu => rw [isInit_out_of_range (by simp [necW3])] at hu; cases hu
+  · intro u hu
+    have : u = 0 := by simpa using hu
+    subst this
+    decide
+  · intro u hu; cases hu
+  · intro h
+    have hr : Reach necW3 0 [0] [4] 1 :=
+      ((C18_values_exact necW3 false [0] [4] 0 1).mp (by decide +kernel)).resolve_left (by decide)
+    exact h 1 hr 0 (by decide) (.mk 1 [1] [] [1] []) (by simp [necW3, World.nodeD])
+      ((mem_defsG _ 1).mp (by decide))
+  · intro h
+    have := h 4 (by decide)
+    revert this
+    decide
 
 end IrVerif.Extract
